@@ -334,6 +334,8 @@ pub struct Cfg {
     /// which half of the assertions this instance carries (the solver's problem is split in two):
     /// 0 = all, 1 = status + headers + resolver arguments, 2 = body
     pub focus: u8,
+    /// event kinds of the entity streams (see hcommon::draw_script_fixed); 255 = symbolic
+    pub script: [u8; 6],
 }
 
 pub const FOCUS_HEADERS: u8 = 1;
@@ -382,7 +384,7 @@ pub fn serve_cfg(c: Cfg) {
         }
         i += 1;
     }
-    draw_script(false);
+    draw_script_fixed(false, c.script);
     unsafe {
         PARSE_KIND = c.parse;
         PARSE_N = c.nranges;
